@@ -200,6 +200,7 @@ func (s *Sched) chanOp(kind string, cases []chanCase, hasDefault bool) (int, any
 	}
 	if len(ready) == 0 {
 		if hasDefault {
+			s.cur.polled = true
 			return -1, nil, false
 		}
 		panic("core: chanOp scheduled while not ready")
